@@ -30,6 +30,9 @@ EXCS = [
     ("RuntimeError", "RuntimeError('caf\\xe9 \\u65e5\\u672c')", "caf\xe9 日本"),
     ("AssertionError", "AssertionError('line one\\nline two')", "line two"),
     ("OSError", "OSError('No such thing')", "No such thing"),
+    # what open(os.fsdecode(b"caf<e9>.txt")) says: a message with a lone surrogate (PEP 383 file names)
+    ("ValueError", "ValueError('undecodable-name-\\udce9.txt')", "undecodable-name-"),
+    ("EOFError", "EOFError('premature end of my own input data')", "premature end of my own input data"),
 ]
 KINDS = ["body", "callback_local", "callback_remote", "body_peer_dropped", "endmarker_callback_raises"]
 
@@ -55,7 +58,9 @@ def shards(tier, seed):
 def gen_program(rng, kind=None):
     kind = kind or rng.choice(KINDS)
     n = rng.choice((0, 1, 3, 10))
-    return {"kind": kind, "p": rng.randint(0, n), "n": n, "exc": rng.randrange(len(EXCS)), "dropped": rng.random() < 0.4,
+    return {"kind": kind, "p": rng.randint(0, n), "n": n, # (EOFError, the last entry, is the recorded finding: kept rare, and left to the plain "body" kind, where no 15 s wait for a warning is involved)
+            "exc": (len(EXCS) - 1) if (rng.random() < 0.03 and kind != "body_peer_dropped") else rng.randrange(len(EXCS) - 1),
+            "dropped": rng.random() < 0.4,
             "consume": rng.choice(("receive", "waitclose_first")), "siblings": rng.choice((0, 2, 3))}
 
 
@@ -129,11 +134,20 @@ def start_siblings(lab, k, stop):
     return out
 
 
+def mech(name, exc, kind):
+    """mechanism name of a violation; the one recorded finding of this family gets its own key: a remote *body* ending
+    with EOFError is taken by executetask for the end of the connection and the channel is closed without an error"""
+    if EXCS[exc][0] == "EOFError" and kind.startswith(("body", "real-")) and name in ("failure-not-reported-as-remoteerror",
+                                                                                   "failure-of-dropped-channel-not-reported"):
+        return f"remote-body-eoferror-closes-channel-without-error:{kind}"
+    return f"{name}:{kind}"
+
+
 def run_program(res: Result, lab, prog, label, hid):
     from execnet.gateway_base import RemoteError
 
     kind, p, n, exc = prog["kind"], prog["p"], prog["n"], prog["exc"]
-    m = lambda name: f"{name}:{kind}"
+    m = lambda name: mech(name, exc, kind)
     stop = threading.Event()
     sibs = start_siblings(lab, prog["siblings"], stop)
     gw = lab.gw
@@ -357,7 +371,7 @@ def run_shard(spec):
             todo = [(None, None, None)] * spec["runs"]
         else:
             lines = imodel.function_lines(gb.ChannelFactory._local_receive, gb.ChannelFactory._local_close, gb.ChannelFactory._no_longer_opened,
-                                          gb.WorkerGateway.executetask, gb.Message._channel_close_error, gb.Channel.close, gb.geterrortext)
+                                          gb.WorkerGateway.executetask, gb.Message._channel_close_error, gb.Channel.close, gb.geterrortext, gb.Channel.__del__)
             res.info["sweep_lines"] = len(lines)
             todo = [(ln, k, kind) for ln in lines for k in spec["ks"] for kind in KINDS]
             todo = [t for i, t in enumerate(todo) if i % spec["parts"] == spec["part"]]
@@ -375,6 +389,8 @@ def run_shard(spec):
                     lab.gw.reconfigure(py2str_as_py3str=cfg[0], py3str_as_py2str=cfg[1])
                     res.count("labs_with_reconfigured_gateway")
             prog = gen_program(rng, kind)
+            if ln is None and i == 0 and spec["shard"] == 0:
+                prog.update(kind="body", exc=len(EXCS) - 1)  # the recorded EOFError finding is exercised in every run
             hid += 1
             if ln is None:
                 mode = spec["mode"]
@@ -447,10 +463,10 @@ def run_real(spec):
             else:
                 group.makegateway("popen//id=m")
                 gw = group.makegateway("popen//via=m")
-            m = lambda name: f"{name}:real-{spec['spec']}"
             sib = gw.remote_exec("for x in channel:\n    channel.send(x)\n")
             # (1) body raises
             exc = rng.randrange(len(EXCS))
+            m = lambda name, exc=exc: mech(name, exc, f"real-{spec['spec']}")
             p = rng.choice((0, 2, 7))
             src, errline = body_source(run, p, exc)
             ch = gw.remote_exec(src)
@@ -470,6 +486,7 @@ def run_real(spec):
             if got != [(run, i) for i in range(p)]:
                 res.violation(m("items-before-failure-wrong"), short(got))
             # (2) worker-side callback raises, channel alive or dropped
+            m = lambda name: f"{name}:real-{spec['spec']}"
             for dropped in (False, True):
                 p = rng.choice((0, 1, 3))
                 ctl = gw.remote_exec(REAL_CB)
